@@ -1,6 +1,7 @@
 package main
 
 import (
+	"strings"
 	"go/ast"
 	"go/token"
 	"go/types"
@@ -130,6 +131,9 @@ func writerMutation(c *Ctx, in ssa.Instruction) (what string, x *X) {
 
 func runC06(c *Ctx) {
 	c.Trust("go/ssa", "go/cfg lockset", "time.Time")
+	// the records compared by time arrive as JSON: the time (and every other field) is read under the key it is written under
+	wireNamesAsReference(c, "C06.P2-wire-names", "find/model.ProviderInfo")
+	c.Floor("C06.P2-wire-names", 1)
 	writers := pcacheWriters(c)
 	if len(writers) < 2 {
 		c.Unk("C06.P1-must-publish", "pcache writers", token.NoPos, "expected at least two functions mutating/publishing cache state (refresh and miss-fetch)")
@@ -593,6 +597,72 @@ func pcacheMergePrecedence(c *Ctx, rule string) {
 			c.Check(!filtered, rule, key+" › carries every tracked provider", mu.Pos(), "the rebuilt main map receives an entry for every key of the write map, unconditionally", "entries are filtered by their value when the main map is rebuilt: negative (nil) entries vanish from the snapshot although the writer still tracks them")
 		})
 	}
+	// the same with the maps package: the rebuilt main map starts as a copy of the old main map (maps.Clone, or a fresh
+	// map that the old one is copied into first) and the pending updates are copied over it AFTERWARDS — maps.Copy
+	// overwrites, so the later copy takes precedence — and what is then removed is decided by the key (is it still in
+	// the write map?), not by the value (a nil record is the remembered "absent" answer)
+	for _, w := range scope {
+		type cp struct {
+			in   ssa.Instruction
+			kind string
+		}
+		var copies []cp
+		clonedFromOld := false
+		for _, cs := range c.Calls(w.SSA, Any()) {
+			if cs.Fn != w.SSA {
+				continue
+			}
+			switch {
+			case strings.HasPrefix(cs.X.Name, "maps.Clone[") && len(cs.X.Args) == 1 && isOldMain(cs.X.Args[0]):
+				clonedFromOld = true
+			case strings.HasPrefix(cs.X.Name, "maps.Copy[") && len(cs.X.Args) == 2:
+				src := cs.X.Args[1]
+				switch {
+				case isOldMain(src):
+					copies = append(copies, cp{cs.In, "old"})
+				case isFreshMap(c, src) && holdsPendingUpdates(c, src, 0):
+					copies = append(copies, cp{cs.In, "upd"})
+				}
+			}
+		}
+		var upd ssa.Instruction
+		nOld := 0
+		for _, k := range copies {
+			if k.kind == "upd" {
+				upd = k.in
+			} else {
+				nOld++
+			}
+		}
+		if upd == nil || !(clonedFromOld || nOld > 0) {
+			continue
+		}
+		key := w.Name + " › rebuild main map"
+		okOrder := true
+		for _, k := range copies {
+			if k.kind == "old" && !(Precedes(k.in, upd) && !MayFollow(upd, k.in)) {
+				okOrder = false
+			}
+		}
+		c.Check(okOrder, rule, key, upd.Pos(), "pending updates are copied over the old main map (the later copy wins)", "old main map takes precedence over pending updates (it is copied after them): a rebuilt snapshot reverts records readers already saw")
+		byValue := false
+		for _, cs := range c.Calls(w.SSA, Any()) {
+			if !strings.HasPrefix(cs.X.Name, "maps.DeleteFunc[") || len(cs.X.Args) != 2 {
+				continue
+			}
+			if lit := funcValueTarget(cs.X.Args[1].V); lit != nil && len(lit.Params) >= 2 {
+				val := lit.Params[len(lit.Params)-1]
+				for _, b := range lit.Blocks {
+					if ret, isRet := b.Instrs[len(b.Instrs)-1].(*ssa.Return); isRet && len(ret.Results) == 1 {
+						if c.RetX(ret, 0).Contains(func(y *X) bool { return y.V == ssa.Value(val) }) {
+							byValue = true
+						}
+					}
+				}
+			}
+		}
+		c.Check(!byValue, rule, key+" › carries every tracked provider", upd.Pos(), "entries are removed from the rebuilt map by key (no longer tracked), never by their value", "entries are filtered by their value when the main map is rebuilt: negative (nil) entries vanish from the snapshot although the writer still tracks them")
+	}
 	c.Floor(rule, 2)
 }
 
@@ -695,6 +765,28 @@ func pcacheLoadUnderToken(c *Ctx, rule string) {
 func isFreshMap(c *Ctx, x *X) bool {
 	if x.Op == "makemap" {
 		return true
+	}
+	if ph, ok := strip(x).V.(*ssa.Phi); ok && strip(x).Op == "phi" && len(strip(x).Args) > 0 {
+		// fresh on every edge (a clone, or the map made where the clone is nil)
+		all := true
+		for _, a := range strip(x).Args {
+			as := strip(a)
+			if as == nil || as == strip(x) {
+				all = false
+				break
+			}
+			if as.Op == "makemap" {
+				continue
+			}
+			if call, isCall := as.V.(*ssa.Call); isCall && as.Op == "call" && returnsFreshMap(c, call.Call.StaticCallee(), 0) {
+				continue
+			}
+			all = false
+		}
+		_ = ph
+		if all {
+			return true
+		}
 	}
 	if call, ok := strip(x).V.(*ssa.Call); ok && x.Op != "param" && returnsFreshMap(c, call.Call.StaticCallee(), 0) {
 		return true
@@ -863,6 +955,19 @@ func holdsPendingUpdates(c *Ctx, x *X, depth int) bool {
 	sx := strip(x)
 	if mk, ok := sx.V.(*ssa.MakeMap); ok && sx.Op == "makemap" {
 		return copiedInto(mk, isU)
+	}
+	// maps.Clone(read.u), possibly followed by 'if updates == nil { updates = make(…) }' (the phi of the two)
+	if call, ok := sx.V.(*ssa.Call); ok && sx.Op == "call" && strings.HasPrefix(sx.Name, "maps.Clone[") && len(sx.Args) == 1 && isU(sx.Args[0]) {
+		_ = call
+		return true
+	}
+	if ph, ok := sx.V.(*ssa.Phi); ok && sx.Op == "phi" {
+		for _, a := range sx.Args {
+			if as := strip(a); as != nil && as.Op == "call" && strings.HasPrefix(as.Name, "maps.Clone[") && len(as.Args) == 1 && isU(as.Args[0]) {
+				_ = ph
+				return true
+			}
+		}
 	}
 	if call, ok := sx.V.(*ssa.Call); ok && sx.Op != "param" {
 		callee := call.Call.StaticCallee()
